@@ -9,7 +9,7 @@ related() {
     C12) echo "C12";; C13) echo "C13 C12 C11";; C14) echo "C14";; C15) echo "C15 C14";; C17) echo "C17";; C19) echo "C19";; C20) echo "C20";;
   esac
 }
-for d in $ROOT/C*/[abcd]; do
+for d in $ROOT/C*/[a-f]; do
   prop=$(basename $(dirname $d)); id=${prop}_$(basename $d)
   p=$d/patch.diff; [ -f $d/patch_rebased.diff ] && p=$d/patch_rebased.diff
   cd /repo; git diff --quiet || { echo "repo dirty" >> "$OUT"; exit 2; }
